@@ -12,7 +12,7 @@ class RcuBase(CheckDef):
     harness = 'rcu'
     trace_spec = ('RcuTrace.tla', 'RcuTrace.cfg')
     monitors = [('RcuMon.tla', 'RcuMon.cfg'), ('HB.tla', 'HB.cfg')]
-    fields = ('t', 'k', 'o', 'i', 'v', 'w', 'u')
+    fields = ('t', 'k', 'o', 'i', 'v', 'w', 'u', 'm')
     conf = ModelRun('RcuListMC.tla', 'Rcu_conf.cfg', workers=16)
     conf_limit = {'quick': 2000, 'thorough': None}
     san = {'quick': False, 'thorough': True}
@@ -41,8 +41,11 @@ class RcuBase(CheckDef):
 
     ignore_driver = True
 
+    def release_of(self, e):
+        return e.get('m', 5) >= 3   # the registration stores its next pointer with memory_order_relaxed
+
     def driver_prefix(self, s0):
-        return ['0:0', '0:0']      # rcu_list() stores null into head and tail under the scheduler
+        return ['0:0', '0:0', '0:0', '0:0']      # rcu_list() stores null into head and tail under the scheduler (each followed by its pu step)
 
     def path_header(self, s0):
         return 'prog=%s' % prog_string(s0['prog'])
